@@ -66,7 +66,7 @@ async def _run(sc):
                 log.append(("eff", "sched", f[1], f[2], now()))
 
     def make_job(jid, when):
-        return flavoured(make_plain_job(jid, when), sc.get("job_flavour", {}).get(str(jid), "function"))
+        return flavoured(make_plain_job(jid, when), sc.get("job_flavour", {}).get(str(jid), "function"), jid)
 
     def make_plain_job(jid, when):
         async def job():
@@ -76,6 +76,8 @@ async def _run(sc):
                 await asyncio.sleep(0)
             if sc.get("job_raise", {}).get(str(jid)):
                 log.append(("job", "raise", jid, when, now()))
+                if sc.get("raise_noargs") and jid % 3 == 1:
+                    raise asyncio.CancelledError()       # a job that gives up by cancelling itself fails too
                 raise (AssertionError() if sc.get("raise_noargs") else RuntimeError("job %d fails" % jid))
             log.append(("job", "end", jid, when, now()))
         return job
@@ -110,12 +112,23 @@ async def _run(sc):
         async def __call__(self, *args):
             await self.fn(*args)
 
-    def flavoured(fn, flavour):
-        """the same behaviour as a plain function, a functools.partial or a callable object"""
+    class Deferred:
+        """an awaitable that is not a coroutine object: awaiting it runs the coroutine function it wraps"""
+        def __init__(self, fn, args):
+            self.fn, self.args = fn, args
+
+        def __await__(self):
+            return self.fn(*self.args).__await__()
+
+    def flavoured(fn, flavour, salt=0):
+        """the same behaviour as a plain function, a functools.partial, a callable object, or a plain (non-async)
+        callable returning an awaitable object -- all of them are Callable[..., Awaitable]"""
         if flavour == "partial":
             import functools
             return functools.partial(fn)
         if flavour == "object":
+            if salt % 2 == 1:
+                return lambda *args: Deferred(fn, args)
             return CallableObject(fn)
         return fn
 
@@ -125,7 +138,7 @@ async def _run(sc):
         hs = []
         for k in range(hc["n"]):
             fn = make_handler("src", k, i, hc["susp"][k], hc["raise"][k], k == 0)
-            hs.append(Bound(fn) if fl[k] == "method" else flavoured(fn, fl[k]))
+            hs.append(Bound(fn) if fl[k] == "method" else flavoured(fn, fl[k], k + i))
 
         def sub(h):
             return h.handle if isinstance(h, Bound) else h
